@@ -173,8 +173,7 @@ def insertInt (a : Int) : List Int → List Int
 
 /-- spec-level tie vector: multiplicities of the distinct pooled values in increasing order -/
 def specTieVector (pool : List Int) : List Nat :=
-  let d := pool.eraseDups.foldr insertInt []
-  d.map fun a => (pool.filter (· = a)).length
+  Spec.UExact.tieVectorOf (pool.eraseDups.foldr insertInt []) pool
 
 /-! ### Mann–Whitney cases -/
 
@@ -200,7 +199,7 @@ def specDist (pool : List Int) (n1 : Nat) : SpecDist :=
       pmf := fun u => ((((g.filter (·.1 = u)).map (·.2)).sum : Nat) : Rat) / ((Spec.UExact.gTotal g : Nat) : Rat)
       consistent := true }
   if Spec.UExact.choose N n1 ≤ enumLimit then
-    let d := (Spec.UExact.splits n1 pool).map fun p => Spec.UExact.twoUPairs p.1 p.2
+    let d := Spec.UExact.nullDistOf n1 pool
     { total := d.length, less := Spec.UExact.pLess d, greater := Spec.UExact.pGreater d,
       two := Spec.UExact.pTwoSided d
       pmf := fun u => (((d.filter (· = u)).length : Nat) : Rat) / ((d.length : Nat) : Rat)
@@ -289,12 +288,11 @@ def handleDist (c info : Line) : IO Unit := do
   let mc := pts.map (UDist.cdf n1 n2 T)
   let msum := mp.foldl (· + ·) 0
   -- the memo-table form against the pure recurrence, the count table against pRec (small cases)
-  let small := (T.foldl (fun acc t => acc * (t + 1)) 1) ≤ 20000
+  let small := (T.foldl (fun acc t => acc * (t + 1)) 1) ≤ 20000 && (UDist.hasTies T || n1 + n2 ≤ 9)
   let pureOk := !small || (pts.all fun u => UDist.pmfPure n1 n2 T u == UDist.pmf n1 n2 T u
                                               && UDist.cdfPure n1 n2 T u == UDist.cdf n1 n2 T u)
-  let recOk := UDist.hasTies T || n1 + n2 > 14 ||
-    ((List.range (n1 * n2 + 1)).all fun u =>
-      UDist.pRec (min n1 n2) (max n1 n2) (u : Nat) == UDist.pUntied n1 n2 u)
+  let recOk := UDist.hasTies T || n1 + n2 > 12 ||
+    ((List.range (n1 * n2 + 2)).all fun u => UDist.pUntiedRec n1 n2 u == UDist.pUntied n1 n2 u)
   let chk := (if pureOk then "" else " MODEL-INCONSISTENT(memo≠pure)") ++ (if recOk then "" else " MODEL-INCONSISTENT(counts≠pRec)")
   IO.println s!"obs {c.id} pmf={snapList pb mp} cdf={snapList cb mc} sum={snap sb msum}{chk}"
   -- specification: assignments of the pooled sample (value k repeated T[k] times; no T = all distinct)
